@@ -1372,3 +1372,7 @@ if __name__ == "__main__":
     src2v3_reader.main()
     main3()
     main3r()
+    import src2v3_linear  # work package linearT: coq/gen/Src3l.v (helpers::linear_extract, StreamWriter; fails closed per item)
+    src2v3_linear.main()
+    import src2v3_cli  # work package linearT: coq/gen/Src3x.v (mlar extraction path; fails closed per item)
+    src2v3_cli.main()
